@@ -61,6 +61,8 @@ def run(repo: Repo, ctx) -> None:
     root_schema_rule(repo, ctx, 'C17.R7')
     _r8(repo, ctx)
     _r9(repo, ctx)
+    from .c09 import last_state_rule
+    last_state_rule(repo, ctx, 'C17.R10')
 
 
 def _run_main(repo: Repo, ctx) -> None:
@@ -1262,6 +1264,20 @@ def _r9(repo: Repo, ctx) -> None:
                    f'as applied (every successful reply acknowledges it) '
                    f'while the worker still holds the previous state',
                    f.loc, sample='every normal exit passes __sync__')
+            # an error reply acknowledges the transfer as well (BaseWorker.
+            # call runs sync_state for every exception but FailedStateSync)
+            raises = [x.id for x in g.nodes
+                      if isinstance(x.ast, ast.Raise)]
+            early = [r for r in raises if not g.always_before(r, syncs)]
+            ctx.ob('C17.R9', f'{modname.split(".")[-1]}.{f.name}:'
+                   f'sync-before-error-reply', not early,
+                   f'{f.name} rejects a request with an exception before '
+                   f'__sync__ stored the transfer that came with it: the '
+                   f'pool acknowledges the transfer for every error reply '
+                   f'that is not FailedStateSync, so it believes the worker '
+                   f'holds state it does not hold',
+                   f.loc, sample='every explicit raise is preceded by '
+                                 '__sync__')
     if n < 4:
         raise AnalysisError(f'C17.R9: only {n} worker entry points that '
                             f'call __sync__ were found')
